@@ -176,21 +176,21 @@ type keyring map[string][]*keyPair
 
 func newKeyring(types []string, real map[string]bool) keyring {
 	kr := keyring{}
-	var mu sync.Mutex
-	var wg sync.WaitGroup
 	for _, t := range types {
 		if family(t) == "dsa" {
-			dsaParamsFor(t) // shared by both keys; generate outside the per-key goroutines
+			dsaParamsFor(t) // shared by both keys of the type
 		}
 		kr[t] = make([]*keyPair, 2)
-		for i := 0; i < 2; i++ {
+	}
+	// the map is complete before the generators start; each writes its own slot
+	var wg sync.WaitGroup
+	for _, t := range types {
+		slots := kr[t]
+		for i := range slots {
 			wg.Add(1)
 			go func(t string, i int) {
 				defer wg.Done()
-				k := newKey(t, real[t])
-				mu.Lock()
-				kr[t][i] = k
-				mu.Unlock()
+				slots[i] = newKey(t, real[t])
 			}(t, i)
 		}
 	}
@@ -366,6 +366,18 @@ func mutateValue(form string, sig []byte, signer *keyPair, rng *mrand.Rand) ([]b
 		return derSig(r, big.NewInt(0)), nil
 	case "r-plus-order":
 		return derSig(new(big.Int).Add(r, order(signer.pub)), s), nil
+	case "inner-trailing":
+		// the SEQUENCE is complete and its length covers everything, but after s there is more
+		var extra []byte
+		switch rng.Intn(3) {
+		case 0:
+			extra = tlv(0x02, []byte{byte(1 + rng.Intn(127))}, false) // a third INTEGER
+		case 1:
+			extra = []byte{0x05, 0x00} // NULL
+		default:
+			extra = []byte{byte(0x80 + rng.Intn(128))} // a stray byte, not even an element
+		}
+		return tlv(0x30, append(append(ri, si...), extra...), false), nil
 	case "nonminimal-int":
 		if rng.Intn(2) == 0 {
 			ri = tlv(0x02, append([]byte{0}, intContent(r)...), false)
